@@ -14,7 +14,7 @@ from ..flow import Enumerator, RETURN, fmt
 from ..symx import Expander, TupleV
 from ..anf import R, Unsupported
 from .. import anf
-from .common import dtype_hazard_obligations, struct_ob, formula_ob, guard, last_return, U
+from .common import as_augassign, dtype_hazard_obligations, struct_ob, formula_ob, guard, last_return, U
 from . import mcmc
 from ..report import AnalysisError
 from ..term import Resolver, pmatch
@@ -139,6 +139,7 @@ def _splitting(prog, ci, c, fn, unroll):
 
     def classify(node):
         ev = []
+        node = as_augassign(node)
         try:
             if isinstance(node, ast.AugAssign) and isinstance(node.target, ast.Name):
                 if node.target.id == r and isinstance(node.op, ast.Add):
@@ -233,12 +234,17 @@ def _fd_denominator(c, fd):
         if not defs:
             problems.append(f"step `{h}` is never defined")
         for d in defs:
-            ok, why = _positive_multiple(d.value, h)
+            ok, why = _positive_multiple(d.value, h, _nonzero_facts(fd, d))
             if not ok:
                 problems.append(f"`{U(d)}`: {why}")
         # numerator's probe moved by the same h in the same coordinate
         probes = [n for n in ast.walk(fd) if isinstance(n, ast.AugAssign) and isinstance(n.op, ast.Add)
                   and isinstance(n.target, ast.Subscript) and U(n.value) == h]
+        tp_ = fd.args.args[1].arg
+        # `probe[i] = t[i] + h` on a copy of t is the same move
+        probes += [n for n in ast.walk(fd) if isinstance(n, ast.Assign) and len(n.targets) == 1 and isinstance(n.targets[0], ast.Subscript)
+                   and isinstance(n.value, ast.BinOp) and isinstance(n.value.op, ast.Add)
+                   and {U(n.value.left), U(n.value.right)} == {h, f"{tp_}[{U(n.targets[0].slice)}]"}]
         if len(probes) != 1:
             problems.append(f"the probe is not moved by exactly the step `{h}` that divides the difference")
         # the difference is posterior(probe) - posterior(t), both un-tempered evaluations of the user's density
@@ -272,31 +278,59 @@ def _fd_denominator(c, fd):
     return struct_ob("fd-denominator", qual(c, fd), not problems, "; ".join(problems), HMC, fd.lineno)
 
 
-def _positive_multiple(expr, h):
-    """expr == -h, or literal * F where F is 1, a width, or |x| under the guard x != 0 (else a positive literal)."""
+def _nonzero_facts(fn, node):
+    """texts x for which `x != 0` is known where `node` executes: from the tests of the enclosing if statements / arms."""
+    facts = set()
+
+    def from_test(t, truth):
+        while isinstance(t, ast.UnaryOp) and isinstance(t.op, ast.Not):
+            t, truth = t.operand, not truth
+        if isinstance(t, ast.Compare) and len(t.ops) == 1 and U(t.comparators[0]) in ("0.0", "0"):
+            if (isinstance(t.ops[0], ast.NotEq) and truth) or (isinstance(t.ops[0], ast.Eq) and not truth):
+                facts.add(U(t.left))
+    for anc in ast.walk(fn):
+        if isinstance(anc, ast.If):
+            if any(x is node for b_ in anc.body for x in ast.walk(b_)):
+                from_test(anc.test, True)
+            elif any(x is node for b_ in anc.orelse for x in ast.walk(b_)):
+                from_test(anc.test, False)
+    return facts
+
+
+def _positive(e, facts):
+    """e > 0 for every admissible state: positive literals, products of positives, a box width (upper > lower is validated),
+    |x| where x != 0 is known, and conditional expressions arm by arm."""
+    if isinstance(e, ast.Constant) and isinstance(e.value, (int, float)) and not isinstance(e.value, bool):
+        return e.value > 0
+    if isinstance(e, ast.BinOp) and isinstance(e.op, ast.Mult):
+        return _positive(e.left, facts) and _positive(e.right, facts)
+    if U(e).startswith("self.bounds.width["):
+        return True
+    if isinstance(e, ast.Call) and U(e.func) in ("abs", "fabs", "absolute") and len(e.args) == 1:
+        return U(e.args[0]) in facts
+    if isinstance(e, ast.IfExp):
+        t, truth = e.test, True
+        while isinstance(t, ast.UnaryOp) and isinstance(t.op, ast.Not):
+            t, truth = t.operand, not truth
+        fb, fo = set(facts), set(facts)
+        if isinstance(t, ast.Compare) and len(t.ops) == 1 and U(t.comparators[0]) in ("0.0", "0"):
+            nz = (isinstance(t.ops[0], ast.NotEq) and truth) or (isinstance(t.ops[0], ast.Eq) and not truth)
+            z = (isinstance(t.ops[0], ast.Eq) and truth) or (isinstance(t.ops[0], ast.NotEq) and not truth)
+            if nz:
+                fb.add(U(t.left))
+            if z:
+                fo.add(U(t.left))
+        return _positive(e.body, fb) and _positive(e.orelse, fo)
+    return False
+
+
+def _positive_multiple(expr, h, facts=frozenset()):
+    """expr == -h (the inward flip of a step already shown positive), or provably positive."""
     if isinstance(expr, ast.UnaryOp) and isinstance(expr.op, ast.USub) and U(expr.operand) == h:
         return True, ""
-    if isinstance(expr, ast.BinOp) and isinstance(expr.op, ast.Mult):
-        parts = [expr.left, expr.right]
-        lit = [p for p in parts if isinstance(p, ast.Constant) and isinstance(p.value, (int, float)) and p.value != 0]
-        oth = [p for p in parts if p not in lit]
-        if len(lit) == 1 and len(oth) == 1:
-            f = oth[0]
-            if U(f).startswith("self.bounds.width["):
-                return True, ""
-            if isinstance(f, ast.IfExp):
-                t = f.test
-                # canonical polarity (sa/canon.py):  <positive literal> if x == 0 else abs(x)
-                if isinstance(t, ast.Compare) and isinstance(t.ops[0], (ast.NotEq, ast.Eq)) and U(t.comparators[0]) in ("0.0", "0"):
-                    x = U(t.left)
-                    nz, z = (f.body, f.orelse) if isinstance(t.ops[0], ast.NotEq) else (f.orelse, f.body)
-                    body_ok = U(nz) in (f"abs({x})", f"fabs({x})", f"absolute({x})")
-                    else_ok = isinstance(z, ast.Constant) and isinstance(z.value, (int, float)) and z.value > 0
-                    if body_ok and else_ok:
-                        return True, ""
-                return False, "conditional factor is not `abs(x) if x != 0 else <positive literal>`"
-            return False, f"factor `{U(f)}` can vanish (e.g. at a zero coordinate)"
-    return False, "not of the form literal * positive factor"
+    if _positive(expr, set(facts)):
+        return True, ""
+    return False, "not provably non-zero (literal x positive factor; |x| only where x != 0 is known)"
 
 
 def _force(prog, ci, c, fd):
@@ -317,6 +351,17 @@ def _force(prog, ci, c, fd):
     sites = prog.self_assignments(ci, "grad")
     ok = len(sites) == 1 and any(pmatch(sites[0][3], pt) is not None for pt in
                                  ("self.finite_diff if grad is None else grad", "grad if grad is not None else self.finite_diff"))
+    if not ok and len(sites) == 2:
+        # the same choice as a statement:  if grad is None: self.grad = self.finite_diff  else: self.grad = grad
+        init_ = sites[0][1]
+        for iff in [n for n in ast.walk(init_) if isinstance(n, ast.If)]:
+            def arm_value(block):
+                v = [st_.value for st_ in block if isinstance(st_, ast.Assign) and U(st_.targets[0]) == "self.grad"]
+                return U(v[0]) if len(v) == 1 and len(block) == 1 else None
+            tb, to = arm_value(iff.body), arm_value(iff.orelse)
+            tt = U(iff.test)
+            if (tt == "grad is None" and (tb, to) == ("self.finite_diff", "grad")) or (tt == "grad is not None" and (tb, to) == ("grad", "self.finite_diff")):
+                ok = True
     out.append(struct_ob("force-is-potential-gradient", f"{ci.module.name}.HamiltonianChain.__init__[grad-slot]", ok,
                          f"grad slot binding is `{U(sites[0][3]) if sites else None}`", HMC,
                          sites[0][2].lineno if sites else ci.node.lineno))
